@@ -64,4 +64,55 @@ def stepHoy (ts k : Nat) : Rat := ((60 * k / ts : Nat) : Rat) / 60
 #guard getForHoyIndex (stepHoy 15 131069 * 15) = 131069
 #guard getForHoyIndex (9006993096310783 / 68719476736) = 131068
 
+/-! ### Round 6: the sub-period a continuous source is filtered with, and the three-hour lag of the Zhang-Huang input -/
+
+/-- A day of the year lies on the days a whole-day source holds: between its first and its last day, BOTH included; for a
+    source that wraps the year end, from its first day to 31 Dec or from 1 Jan to its last day. -/
+def dayInside (src : AP) (doy : Nat) : Bool :=
+  if src.isReversed then decide (src.stTime.doy ≤ doy) || decide (doy ≤ src.endTime.doy)
+  else decide (src.stTime.doy ≤ doy) && decide (doy ≤ src.endTime.doy)
+
+/-- `a_per.st_time.doy < src_st and (not wraps or a_per.st_time.doy > src_end)`. -/
+def stOutside (src : AP) (doy : Nat) : Bool :=
+  decide (doy < src.stTime.doy) && (!src.isReversed || decide (src.endTime.doy < doy))
+
+/-- `a_per.end_time.doy > src_end and (not wraps or a_per.end_time.doy < src_st)`. -/
+def endOutside (src : AP) (doy : Nat) : Bool :=
+  decide (src.endTime.doy < doy) && (!src.isReversed || decide (doy < src.stTime.doy))
+
+/-- `HourlyContinuousCollection._get_analysis_period_subset(a_per)` for a source with header period `src`: the period the
+    collection is really filtered with.  An annual source takes the request as it is; otherwise hours are clipped to the source's
+    window and a first / last day that lies outside the source's days is replaced by the source's own first / last day. -/
+def subsetAP (src req : AP) : AP :=
+  if src.isAnnual then req else
+    let so := stOutside src req.stTime.doy
+    let eo := endOutside src req.endTime.doy
+    ⟨if so then src.st_month else req.st_month, if so then src.st_day else req.st_day,
+     if req.st_hour < src.st_hour then src.st_hour else req.st_hour,
+     if eo then src.end_month else req.end_month, if eo then src.end_day else req.end_day,
+     if src.end_hour < req.end_hour then src.end_hour else req.end_hour, req.timestep, req.leap⟩
+
+-- winter slice 21 Dec - 21 Mar: its last day, its first day, the days around the year end are taken as asked for
+#guard subsetAP ⟨12, 21, 0, 3, 21, 23, 1, false⟩ ⟨3, 21, 0, 3, 21, 23, 1, false⟩ = ⟨3, 21, 0, 3, 21, 23, 1, false⟩
+#guard subsetAP ⟨12, 21, 0, 3, 21, 23, 1, false⟩ ⟨12, 21, 0, 12, 21, 23, 1, false⟩ = ⟨12, 21, 0, 12, 21, 23, 1, false⟩
+#guard subsetAP ⟨12, 21, 0, 3, 21, 23, 1, false⟩ ⟨12, 30, 0, 1, 2, 23, 1, false⟩ = ⟨12, 30, 0, 1, 2, 23, 1, false⟩
+-- one day outside on either side: clipped to the slice
+#guard subsetAP ⟨12, 21, 0, 3, 21, 23, 1, false⟩ ⟨3, 22, 0, 3, 22, 23, 1, false⟩ = ⟨12, 21, 0, 3, 21, 23, 1, false⟩
+#guard subsetAP ⟨12, 21, 0, 3, 21, 23, 1, false⟩ ⟨12, 20, 5, 1, 1, 23, 1, false⟩ = ⟨12, 21, 5, 1, 1, 23, 1, false⟩
+#guard subsetAP ⟨6, 1, 8, 6, 14, 17, 2, true⟩ ⟨5, 31, 0, 6, 15, 23, 2, true⟩ = ⟨6, 1, 8, 6, 14, 17, 2, true⟩
+#guard subsetAP ⟨6, 1, 0, 6, 14, 23, 2, true⟩ ⟨6, 14, 0, 6, 14, 23, 2, true⟩ = ⟨6, 14, 0, 6, 14, 23, 2, true⟩
+
+/-- `dry_bulb_temperature[count - (3 * a_per.timestep)]` of `Wea.from_zhang_huang_solar`: the position, in a series of `n` values
+    with `ts` steps per hour, of the value of THREE HOURS before step `count` (a negative Python index counts from the end; outside
+    `-n .. n-1` it is an IndexError = `none`). -/
+def zhLagIndex (ts n count : Nat) : Option Nat :=
+  if 3 * ts ≤ count then (if count - 3 * ts < n then some (count - 3 * ts) else none)
+  else if 3 * ts - count ≤ n then some (n - (3 * ts - count)) else none
+
+#guard zhLagIndex 1 48 5 = some 2
+#guard zhLagIndex 4 192 12 = some 0
+#guard zhLagIndex 4 192 11 = some 191
+#guard zhLagIndex 2 48 0 = some 42
+#guard zhLagIndex 12 24 0 = none
+
 end Wea
